@@ -48,7 +48,7 @@ func genPrograms(seed uint64, stream string, nFlows, nPars int, o prog.GenOpts, 
 		pr := prog.NewRand(seed, hashS(stream+"/pairs"))
 		for i := 0; i+1 < len(out); i++ {
 			a, b := out[i], out[i+1]
-			if a.Guest != nil || a.Host != "" || b.Host != "" || a.HasFeature("spell4") || b.HasFeature("spell4") || b.HasFeature("kind20") || b.HasFeature("kind21") || b.HasFeature("kind22") || a.AutoInstrument != b.AutoInstrument {
+			if a.Guest != nil || a.Host != "" || b.Host != "" || a.HasFeature("spell4") || b.HasFeature("spell4") || b.HasFeature("collection-argument-is-a-foreign-package-level-variable") || b.HasFeature("kind20") || b.HasFeature("kind21") || b.HasFeature("kind22") || a.AutoInstrument != b.AutoInstrument {
 				continue
 			}
 			if pr.Intn(100) < o.PairPct {
